@@ -21,7 +21,9 @@ import mici.systems as S  # noqa: E402
 import mici.states as ST  # noqa: E402
 from mici.states import ChainState  # noqa: E402
 
-MUTATORS = ["set_pos", "set_mom", "set_dir", "copy", "copy_ro", "pickle", "switch"]
+# "copy"/"copy_ro" continue on the copy, "view_ro" hands out a read-only copy and continues on the original; after every step
+# *all* live states are swept (the current one first), so an operation on one state that disturbs another one is seen
+MUTATORS = ["set_pos", "set_mom", "set_dir", "copy", "copy_ro", "view_ro", "pickle", "switch"]
 
 SYSTEMS = {
     "euclid": dict(kind="euclid", dim=2, mkind="diag"),
@@ -103,7 +105,11 @@ def prob_history(mk, sname, history, convention="plain", two_systems=False, effi
     eff = []
 
     def sweep(tag):
-        st = live[cur]
+        order = [cur] + [i for i in range(len(live)) if i != cur]
+        for li in (order if not efficiency else order[:1]):
+            _sweep_state(live[li], tag if li == cur else f"{tag}, other live state #{li}")
+
+    def _sweep_state(st, tag):
         for si, (sysm, info) in enumerate(systems):
             for m in cached_methods(sysm):
                 try:
@@ -149,6 +155,8 @@ def prob_history(mk, sname, history, convention="plain", two_systems=False, effi
             elif op == "copy_ro":
                 live.append(st.copy(read_only=True))
                 cur = len(live) - 1
+            elif op == "view_ro":
+                live.append(st.copy(read_only=True))
             elif op == "pickle":
                 if mk.symbolic:
                     raise Skip("pickling is exercised in the concrete pass")
@@ -160,7 +168,7 @@ def prob_history(mk, sname, history, convention="plain", two_systems=False, effi
             pass
         before = counts()
         sweep(f"after step {step + 1} ({op})")
-        if efficiency and op in ("copy", "copy_ro", "switch", "set_dir"):
+        if efficiency and op in ("copy", "copy_ro", "view_ro", "switch", "set_dir"):
             after = counts()
             eff.append((f"after '{op}' (no dependency changed) the sweep evaluates no user function", before, after))
     for msg, a, b in eff:
